@@ -70,7 +70,9 @@ def cases(rng, tier):
             if kind == "other":
                 continue
             for _ in range(reps):
-                fmts = ["dict", "json", "urlencoded", "jwt"]
+                # "httpurl": the urlencoded form as the relying party puts it on the wire for a GET request (client.util.get_http_url), to an
+                # endpoint whose URL has a query part of its own
+                fmts = ["dict", "json", "urlencoded", "jwt", "httpurl"]
                 fmt = rng.choice(fmts) if tier == "quick" else None
                 for f in ([fmt] if fmt else fmts):
                     out.append({"t": "cell", "cls": qn, "param": pn, "kind": kind, "fmt": f, "v": gen_value(rng, kind)})
@@ -235,6 +237,14 @@ def impl(c):
             wire = m.to_urlencoded()
             back = cls().from_urlencoded(wire)
             wire_s = wire
+        elif fmt == "httpurl":
+            from idpyoidc.client.util import get_http_url
+            from urllib.parse import urlsplit
+            ep = "https://login.example.org/authorize" + ("?tenant=contoso" if len(c["param"]) % 3 else "")
+            wire = urlsplit(get_http_url(ep, m, "GET")).query
+            back = cls().from_urlencoded(wire)
+            back.pop("tenant", None) if "tenant" not in m else None
+            wire_s = wire
         elif fmt == "json":
             wire = m.to_json()
             back = cls().from_json(wire)
@@ -293,7 +303,7 @@ def model_lines(c, obs):
         return ["msg\tunq\t" + b(c["txt"])]
     if obs["r"] == "construct-exc" or obs.get("stored") == "<absent>":
         return []
-    op = "url" if c["fmt"] == "urlencoded" else "dict"
+    op = "url" if c["fmt"] in ("urlencoded", "httpurl") else "dict"
     return [f"msg\t{op}\t{c['kind']}\t{enc_val(obs['stored'])}"]
 
 
@@ -317,7 +327,7 @@ def compare(c, obs, outs):
     if not outs:
         return []
     f = outs[0].split("\t")
-    if c["fmt"] == "urlencoded":
+    if c["fmt"] in ("urlencoded", "httpurl"):
         if f[0] == "none":
             return ["model cannot serialise"]
         text, quoted, back = f[0], dec_str(f[1]), dec_val(f[2])
@@ -380,7 +390,7 @@ def oracle(c, obs):
     if obs["r"] == "exc":
         return [{"cls": "roundtrip-exception", "fmt": c["fmt"], "kind": c["kind"], "exc": obs["cls"]}]
     st, got = obs["stored"], obs["got"]
-    if c["fmt"] == "urlencoded":
+    if c["fmt"] in ("urlencoded", "httpurl"):
         def textual(x):
             if isinstance(x, bool):
                 return str(x)
@@ -389,7 +399,8 @@ def oracle(c, obs):
             return x
         if textual(st) != got:
             space = isinstance(st, list) and any(" " in x for x in st)
-            v.append({"cls": "list-element-with-space-split" if space else "roundtrip-differs", "fmt": c["fmt"], "kind": c["kind"]})
+            # (the space finding is one of the urlencoded codec, whichever way the text travels)
+            v.append({"cls": "list-element-with-space-split" if space else "roundtrip-differs", "fmt": "urlencoded" if space else c["fmt"], "kind": c["kind"]})
     else:
         if st != got:
             space = isinstance(st, list) and any(" " in x for x in st)
